@@ -162,6 +162,11 @@ inductive Op
   | keep (recv : Bool) (n : Nat)          -- create_keep / recv_keep (number=n)
   | seq (recv : Bool) (n : Nat) (b : Body)              -- …(number=n, sequential=True, post_routine)
   | ctx (recv : Bool) (n : Nat) (sequential : Bool) (b : Body)  -- create_context / recv_context
+  | keepr (recv : Bool) (n fails tries : Nat)
+      -- create_keep/recv_keep(number=n, min_fidelity_all_at_end=…, max_tries=tries); the first
+      -- `fails` attempts are too slow
+  | seqr (recv : Bool) (n : Nat) (b : Body) (fails tries : Nat)
+      -- the same with sequential=True and a post routine
   | flush
   | close
   deriving Repr, DecidableEq
@@ -224,6 +229,12 @@ def moveLoop (n : Nat) : Nat → List Ev
   | k + 1 =>  -- k+1 pairs still to come; pair index i = n - (k+1)
     if k = 0 then [.deliver 0]
     else [.deliver 0, .use2 0 k, .free 0] ++ moveLoop n k
+
+/-- `loop_until(max_tries)`: the body runs, and unless it was fast enough its clean-up code runs
+and the body is tried again — `fails` slow attempts, at most `tries` attempts in all -/
+def retryEvs (attempt cleanup : List Ev) (fails tries : Nat) : List Ev :=
+  (List.replicate (min fails tries) (attempt ++ cleanup)).flatten ++
+    (if fails < tries then attempt else [])
 
 def gate2Evs (c : Cfg) (a b : Nat) : List Ev :=
   if c.transp && a != 0 && b != 0 then [.use 0, .use2 a b] else [.use2 a b]
@@ -289,6 +300,28 @@ def apply (c : Cfg) (st : St) : Op → St × Res
         ({ st1 with hs := releaseLast n st1.hs,
                     evs := st1.evs ++ ids.flatMap (fun d => .deliver d :: bodyEvs d b),
                     lastAlloc := none }, .ok)
+  | .keepr _ n fails tries =>
+    -- the relocation of a qubit on id 0 happens once, before the retry loop (`fix:` F32) …
+    let st0 := freeUp c st
+    if c.maxq < n then (st, .valueError)
+    else match createEnt c st0 n false with
+      | .error st1 => (st1, .assertion)
+      | .ok (st1, ids) =>
+        -- … everything the keep request emits is the loop body: the allocation of the NV memory
+        -- qubits and the wait/move loop; a too slow attempt is cleaned up by freeing every pair
+        let attempt := st1.evs.drop st0.evs.length ++
+          (if c.single then moveLoop n n else ids.map .deliver)
+        let cleanup := ((st1.hs.drop st0.hs.length).map (fun h => Ev.free h.id))
+        ({ st1 with evs := st0.evs ++ retryEvs attempt cleanup fails tries, lastAlloc := none }, .ok)
+  | .seqr _ n b fails tries =>
+    let st0 := freeUp c st
+    match createEnt c st0 n true with
+    | .error st1 => (st1, .assertion)
+    | .ok (st1, ids) =>
+      let arr := if c.single then List.replicate n 0 else ids
+      let attempt := arr.flatMap (fun d => .deliver d :: bodyEvs d b)
+      ({ st1 with hs := releaseLast n st1.hs,
+                  evs := st0.evs ++ retryEvs attempt [] fails tries, lastAlloc := none }, .ok)
   | .flush => flushSt c st
   | .close =>
     match flushSt c st with
